@@ -485,7 +485,7 @@ func (p *c12) knownClass(variant, dir, cls, src string) string {
 		}
 		fnBody := c12FnBodyRe.MatchString(src)
 		switch {
-		case reservedCmd || reserved.MatchString(cls):
+		case reservedCmd || reserved.MatchString(cls) || (strings.Contains(cls, "word") && c12CloseNoSepRe.MatchString(src)):
 			return act("C12-reserved-word-accepted-where-the-shells-reject-it")
 		case c12IONumRe.MatchString(src) && (strings.Contains(cls, "2") || strings.Contains(cls, "redirection")):
 			return act("C12-io-number-taken-for-a-redirection-target")
@@ -518,6 +518,7 @@ func (p *c12) knownClass(variant, dir, cls, src string) string {
 
 var c12RedirThenReservedRe = regexp.MustCompile(`(<|>|>>|<<)[ ]*[^ \n;|()]+[ ]+([^ \n;&|()]+[ ]+)*(\{|!|if|while|until|for|case|then|do|fi|done|esac|elif|else|\})([ \n;]|$)`)
 var c12ForWordRe = regexp.MustCompile("for[ ]+['\"$`]")
+var c12CloseNoSepRe = regexp.MustCompile(`(\}|fi|done|esac)[ ]*(>>|>|<)[ ]*[^ \n;&|()]+[ ]+(done|\}|fi|esac|then|do|else|elif)([ \n;]|$)`)
 var c12IONumRe = regexp.MustCompile(`(<|>|>>)[ ]+[0-9]+[<>]`)
 var c12FnBodyRe = regexp.MustCompile(`fn\(\)[ \n]*([^{( \n]|$)`)
 
